@@ -164,7 +164,8 @@ def trace_part(chk, n_seg, n_file):
     d0 = tlc.scratch('c14f_')
 
     import itertools
-    combos = list(itertools.product(['FCS3.0', 'FCS3.1'], [True, False], ['header', 'text'], ['ok', 'ok', 'broken'], [True, False]))
+    combos = list(itertools.product(['FCS3.0', 'FCS3.1'], [True, False], ['header', 'text'], ['ok', 'ok', 'broken'], [True, False],
+                                    ['zero', 'right', 'left']))
     rnd_c = __import__('random').Random(chk.seed)
     rnd_c.shuffle(combos)
     counter = [0]
@@ -173,8 +174,8 @@ def trace_part(chk, n_seg, n_file):
               suppress_health_check=list(HealthCheck))
     @given(scenario(), st.integers(0, 5))
     def run_file(sc, pad):
-        # every combination of version x supplemental/ANALYSIS rendering x location comes round every 48 files
-        version, supp_lead, analysis_in, an_state, an_lead = combos[counter[0] % len(combos)]
+        # every combination of version x supplemental/ANALYSIS rendering x location comes round every 144 files
+        version, supp_lead, analysis_in, an_state, an_lead, ostyle = combos[counter[0] % len(combos)]
         counter[0] += 1
         dl, pairs = sc
         if dl.isalnum() or dl in '$,':   # offsets / required keywords and their values are rendered with these
@@ -194,7 +195,7 @@ def trace_part(chk, n_seg, n_file):
             araw = fcsgen.encode_text(c, dl)[:-1] + 'zz' if len(c) % 2 else dl + dl + 'q' + dl
         blob, lay = fcsgen.build(version=version, pairs=req + a, data=b'\x07', delim=dl, supp_pairs=b or None,
                                  analysis_pairs=c or None, analysis_in=analysis_in, supp_lead=supp_lead,
-                                 pad_text=pad, raw_analysis=araw, analysis_lead=an_lead)
+                                 pad_text=pad, raw_analysis=araw, analysis_lead=an_lead, offset_style=ostyle)
         path = os.path.join(d0, 'f.fcs')
         with open(path, 'wb') as f:
             f.write(blob)
@@ -213,7 +214,7 @@ def trace_part(chk, n_seg, n_file):
                'k': k, 'dict': proj_dict(ff.text) if k == 'ok' else [],
                'adict': proj_dict(ff.analysis) if k == 'ok' else [], 'awarn': awarn,
                'meta': {'version': version, 'n': [len(a), len(b), len(c)], 'an_state': an_state,
-                        'analysis_in': analysis_in, 'analysis_lead': an_lead}}
+                        'analysis_in': analysis_in, 'analysis_lead': an_lead, 'offset_style': ostyle}}
         file_cases.append(rec)
 
     run_file()
@@ -285,7 +286,7 @@ def main(chk, replay=None):
     if chk.quick:
         mc_part(chk, 3, 2, 2)
         gen_part(chk, 10, tabs)
-        trace_part(chk, 1500, 150)
+        trace_part(chk, 1500, 300)
     else:
         mc_part(chk, 3, 2, 3)
         gen_part(chk, 11, tabs + [{0: '\x0c', 1: '/', 2: '\xff'}])
